@@ -167,6 +167,11 @@ class LimitsDriver(ClientDriver):
 
     def op_heavy_grow(self, op):
         """Grow X's confirmed history to exactly `to` entries with chained self-spends."""
+        if op.get('at'):
+            self._bg(op['at'], lambda: self.op_heavy_grow(dict(op, at=0)))
+            return
+        if op.get('arm'):
+            self.flush_probe_armed = op['arm']
         w = self.w
         d = w.daemon
         cur = getattr(self, 'heavy_count', None)
@@ -196,6 +201,37 @@ class LimitsDriver(ClientDriver):
         self.hmax = max(getattr(self, 'hmax', -1), d.height)
         self.mark('heavy', cur)
 
+    def op_heavy_storm(self, op):
+        """The history of X asked for over and over while the blocks that take it across the limit are indexed and
+        flushed: every reply in flight is judged (C17: never a truncated history)."""
+        def go():
+            c = self.client(op['c'])
+            if not self.ensure_connected(c):
+                return
+            srv = self.w.server
+            h0 = srv.db.state.height if srv is not None and srv.db is not None and srv.db.state is not None else -1
+            self.probe('c17.inflight_history_requests')
+            c.send('blockchain.scripthash.get_history', [XSH], cb=lambda rec: self.judge_heavy_reply(rec, h0))
+        for i in range(op.get('rep', 1)):
+            self._bg(op.get('at', 0.0) + i * op.get('every', 0.25), go)
+
+    def judge_heavy_reply(self, rec, h0):
+        if 'result' not in rec or rec.get('closed'):
+            return
+        limit = max(350000, self.w.k['max_send']) // 99
+        n, ref = self.heavy_len()
+        full = [dict(tx_hash=hex_hash(t), height=h) for t, h in ref.history.get(hashx(X), [])]
+        conf = [x for x in rec['result'] if 'fee' not in x]
+        c = len(conf)
+        # (no lower bound from the height flushed when the request was sent: until the block's notification round has
+        # invalidated it, the session manager's cache legitimately serves the complete history of the height before)
+        self.probe('c17.inflight_history_replies')
+        whole_blocks = c == len(full) or c == 0 or full[c]['height'] != full[c - 1]['height']
+        if not (c < limit and conf == full[:c] and whole_blocks):
+            self.violate('C17', 'inflight.history_truncated', f'a history request in flight while blocks were indexed '
+                         f'was answered with {c} confirmed entries: not the complete history of the script at any '
+                         f'height (flushed height when sent: {h0}, entries now {n}, limit {limit})')
+
     def true_status(self, ref):
         hist = ref.history.get(hashx(X), [])
         s = ''.join(f'{hex_hash(t)}:{h:d}:' for t, h in hist)
@@ -211,6 +247,12 @@ class LimitsDriver(ClientDriver):
         self.probe('c17.heavy_checks')
         self.probe('c17.heavy.' + ('below' if n < limit else 'at' if n == limit else 'above'))
         # the subscribed client: no non-null status other than the true full status, ever
+        # the true statuses of the script at every height of the (fork-free) chain, not only at the quiescence points
+        hist = ref.history.get(hashx(X), [])
+        for j in range(1, len(hist) + 1):
+            if j == len(hist) or hist[j][1] != hist[j - 1][1]:
+                txt = ''.join(f'{hex_hash(t)}:{h:d}:' for t, h in hist[:j])
+                self.heavy_truths.add(hashlib.sha256(txt.encode()).hexdigest())
         for ev, method, params in sub.notifs:
             if method == 'blockchain.scripthash.subscribe' and params[0] == XSH and params[1] is not None \
                     and params[1] not in self.heavy_truths:
@@ -276,7 +318,32 @@ class LimitsDriver(ClientDriver):
     def op_mine(self, op):
         super().op_mine(op)
 
+    def setup(self):
+        super().setup()
+        self._orig_flush_utxo_db = None
+        if self.w.k.get('seam_between_commits'):
+            # a pre-emption point between the history commit and the UTXO batch of one flush (a thread can be
+            # descheduled there; the storage seams alone put none between the commit and the state assignment)
+            from electrumx.server import db as dbmod
+            orig = self._orig_flush_utxo_db = dbmod.DB.flush_utxo_db
+            sim = self.w.sim
+
+            drv = self
+
+            def flush_utxo_db(db, flush_data):
+                if getattr(drv, 'flush_probe_armed', 0) > 0:
+                    # one history request - a cache miss - sent a moment after this point was reached: if the thread
+                    # is parked here it arrives between the two commits
+                    drv.flush_probe_armed -= 1
+                    sim.at(0.05, lambda: drv.op_heavy_storm(dict(op='heavy_storm', c=1, rep=1, at=0.0)))
+                sim.seam('flush.between_commits')
+                return orig(db, flush_data)
+            dbmod.DB.flush_utxo_db = flush_utxo_db
+
     def teardown(self):
+        if getattr(self, '_orig_flush_utxo_db', None) is not None:
+            from electrumx.server import db as dbmod
+            dbmod.DB.flush_utxo_db = self._orig_flush_utxo_db
         super().teardown()
         p = self.res.probes
         self.res.nontrivial = bool(p.get('c17.headers_requests') or p.get('c17.heavy_checks'))
@@ -310,13 +377,38 @@ class LimitsFamily(SubsFamily):
             return dict(family='limits', knobs=k, plan=plan)
         k['max_send'] = rng.choice([0, 350_000, 350_098, 400_000])
         limit = max(350_000, k['max_send']) // 99
+        storm = rng.random() < 0.5
         plan = [dict(op='thin', n=3, seed=1, keep=True), dict(op='start', keep=True),
-                dict(op='heavy_grow', to=limit - rng.choice([2, 3, 40]), keep=True),
+                dict(op='heavy_grow', to=limit - (rng.choice([2, 3, 40]) if not storm else 40), keep=True),
                 dict(op='settle', keep=True), dict(op='heavy_sub'), dict(op='settle'),
                 dict(op='heavy_check')]
         opq = rng.random() < 0.5        # the operator looks the script up now and then (`query`, its own limit)
+        if storm:
+            # motif: flushes are slow; a block that adds to the script's history is indexed and notified (the cached
+            # history is invalidated and nobody asks again), then the block that takes the history to or across the
+            # limit arrives, and single requests for the history - cache misses - land while it is being flushed
+            # (between the history commit and the UTXO commit) ...
+            k['stall_boost'] = ('flush_dbs', rng.choice([0.6, 0.9]))
+            k['stall_max'] = rng.choice([3.0, 6.0])
+            k['preempt'] = True
+            k['seam_between_commits'] = True
+            # (the subscriber leaves: a notification round computes the status of every subscribed script and so
+            # fills the history cache again at once)
+            plan.append(dict(op='c_disconnect', c=0))
+            plan.append(dict(op='heavy_grow', to=limit - 2))
+            plan.append(dict(op='settle'))          # notified: the cached history is gone, and nobody asks
+            plan.append(dict(op='c_connect', c=1))
+            plan.append(dict(op='heavy_grow', to=limit + rng.choice([0, 1, 30]), arm=1))
+            plan.append(dict(op='wait', dt=25.0))
+            plan.append(dict(op='settle'))
+            plan.append(dict(op='heavy_check'))
+            # ... and further on it is asked for over and over while more blocks arrive
         for to in (limit - 1, limit, limit + 1, limit + rng.choice([2, 30])):
             if rng.random() < 0.85:
+                if storm:
+                    for c in (1, 2):
+                        plan.append(dict(op='heavy_storm', c=c, at=round(rng.uniform(0.02, 0.5), 2),
+                                         rep=rng.choice([40, 80]), every=rng.choice([0.1, 0.25])))
                 plan.append(dict(op='heavy_grow', to=to))
                 plan.append(dict(op='settle'))
                 if opq and rng.random() < 0.7:
